@@ -116,6 +116,7 @@ class Env:
         self.cons: list[Consumer] = []
         self.next_eid = 0
         self.dropped = set()
+        self.dispatched = set()      # instances whose events may still be referenced by queues
 
     def obs_event(self, e):
         src = next((i for i, o in enumerate(self.insts) if o is not None and e.source is o), -1)
@@ -283,6 +284,7 @@ class Env:
                 a = self.chan_owner[ch][1]
                 ok_cls = [c for c in range(4) if issubclass(ECLS[c], ATTR_CLS[a])]
                 cls = r.choice(ok_cls) if r.random() > 0.08 else r.randrange(4)
+                self.dispatched.add(self.chan_owner[ch][0])
                 l.append([ch, self.next_eid, cls])
                 self.next_eid += 1
             return {"op": "Burst", "l": l}
@@ -292,14 +294,22 @@ class Env:
                 return {"op": "Recv", "sid": r.choice(idle).sid}
         if k < 0.92 and active:
             return {"op": "Leave", "sid": r.choice(active).sid}
-        if k < 0.95:
+        if 0.92 <= k < 0.95:
             return {"op": "ClassUse", "a": r.randrange(3), "how": r.choice(["HDispatch", "HStream", "HWait"])}
-        if k < 0.97 and len(live) > 1:
-            i = r.choice(live)
+        quiet = [i for i in live if i not in self.dispatched]   # events hold their source strongly
+        if k < 0.97 and len(live) > 1 and quiet:
+            i = r.choice(quiet)
             self.dropped.add(i)
             return {"op": "Drop", "i": i}
-        i = r.choice(live)
-        return {"op": "Access", "i": i, "a": r.choice(owner_attrs(self.classes[i]))}
+        if r.random() < 0.3:
+            i = r.choice(live)
+            return {"op": "Access", "i": i, "a": r.choice(owner_attrs(self.classes[i]))}
+        ch = r.choice(chans_live)
+        a = self.chan_owner[ch][1]
+        cls = r.choice([c for c in range(4) if issubclass(ECLS[c], ATTR_CLS[a])])
+        self.dispatched.add(self.chan_owner[ch][0])
+        self.next_eid += 1
+        return {"op": "Burst", "l": [[ch, self.next_eid - 1, cls]]}
 
 
 async def run_case(case):
